@@ -23,7 +23,7 @@ def real_plans(tier):
 
 def run(tier):
     return snapcheck.run_snap_property(
-        PROP, tier, "SnapTrace_C08.cfg", plans(tier), real_plans=real_plans(tier), real_cfg="RealTrace_C08.cfg",
+        PROP, tier, "SnapTrace_C08.cfg", plans(tier), design=('snap', 'levels'), real_plans=real_plans(tier), real_cfg="RealTrace_C08.cfg",
         rule="round synthetic grids; each input is snapped for its full set of 1-3 tile matrices and for every non-empty proper subset; "
              "TLC demands keys within the request and identical geometry per tile matrix across all records of the group")
 
